@@ -254,9 +254,11 @@ def run_canary(con, label, old, new, timeout_ms=10000, where=None):
     patched = src[:start] + new_seg + src[start + len(seg):]
     saved = extract._FILES[path]
     base = getattr(con, "_base_discharged", None)
-    if base is None:
+    if base is None or getattr(con, "_base_all", None) is None:
         b = run_contract(con, timeout_ms, keep_models=False)
         base = con._base_discharged = {k for k, o in b.obligations.items() if o["status"] == "unsat"}
+        con._base_all = set(b.obligations)
+    base_all = con._base_all
     try:
         t2 = ast.parse(patched)
         for n in ast.walk(t2):
@@ -266,7 +268,8 @@ def run_canary(con, label, old, new, timeout_ms=10000, where=None):
         r = run_contract(con, timeout_ms, keep_models=False)
     finally:
         extract._FILES[path] = saved
-    failed = sorted(k for k in r.failed() if k in base or k.split(":")[-1].startswith("ensures.result.has.the.contracted.shape"))   # newly failing only
+    # newly failing only: discharged on the unpatched source, or an obligation that the unpatched source does not even generate
+    failed = sorted(k for k in r.failed() if k in base or k not in base_all or k.split(":")[-1].startswith("ensures.result.has.the.contracted.shape"))
     unk = sorted(r.unknown())
     status = "killed" if failed else ("undecided" if (unk or r.undecided) else "survived")
     return {"label": label, "status": status, "failed": failed[:4], "unknown": unk[:4], "undecided": r.undecided[:2]}
